@@ -41,7 +41,8 @@ def ann(kind, target, quoted=False):
 
 
 class Topology:
-    def __init__(self, n, edges, nested=False, flavour="dataclass", tag="", payload=True, other=None, foreign_edges=(), style="postponed"):
+    def __init__(self, n, edges, nested=False, flavour="dataclass", tag="", payload=True, other=None, foreign_edges=(), style="postponed",
+                 wrapped_edges=None):
         """edges: list of (i, j, kind). `other`: an already built Topology whose (same-named) classes are reached through
         foreign_edges [(i, j, kind)] as `<other module>.Cj`."""
         _COUNTER[0] += 1
@@ -52,6 +53,9 @@ class Topology:
         # "postponed": `from __future__ import annotations`, every hint a string; "quoted": evaluated annotations, classes of this
         # module named by string literals inside the annotation (classes of the other, already imported module by the object)
         self.style = style
+        # {(a, b, kind): "newtype" | "alias"}: the edge names its target through a wrapper that is defined AFTER the classes
+        #   (`RN1 = typing.NewType("RN1", C1)`): the way back into a cycle leads through a wrapper
+        self.wrapped_edges = dict(wrapped_edges or {})
         STYLE_COUNTS["topologies_" + style] = STYLE_COUNTS.get("topologies_" + style, 0) + 1
 
     def cname(self, i):
@@ -79,7 +83,9 @@ class Topology:
                 body.append(f"{ind}    v: int")
             for (a, b, kind) in self.edges:
                 if a == i:
-                    body.append(f"{ind}    e{b}_{kind}: {ann(kind, self.cname(b), quoted)}")
+                    w = self.wrapped_edges.get((a, b, kind))
+                    target = self.cname(b) if w is None else ("RN" if w == "newtype" else "RA") + str(b)
+                    body.append(f"{ind}    e{b}_{kind}: {ann(kind, target, quoted)}")
             for (a, b, kind) in self.foreign_edges:
                 if a == i:
                     body.append(f"{ind}    x{b}_{kind}: {ann(kind, self.other.name + '.' + self.other.cname(b))}")
@@ -87,6 +93,10 @@ class Topology:
                 body.append(f"{ind}    v: int")
             lines.extend(body)
             lines.append("")
+        for b in sorted({b_ for (_, b_, _), w_ in self.wrapped_edges.items() if w_ == "newtype"}):
+            lines.append(f"RN{b} = typing.NewType('RN{b}', {self.cname(b)})")
+        for b in sorted({b_ for (_, b_, _), w_ in self.wrapped_edges.items() if w_ == "alias"}):
+            lines.append(f"RA{b} = typing.TypeAliasType('RA{b}', {self.cname(b)})")
         return "\n".join(lines) + "\n"
 
     def build(self):
